@@ -81,6 +81,13 @@ OpsC01 ==   \* code single use; replay after refreshes; hybrid codes; other gran
   \cup {Revoke(st.S.at[i].client, "ok", "at", i, "none") : i \in ATs}
   \cup TickOps
 
+OpsC01b ==  \* the life of ONE code and its tokens over time: replay at every age of the code, before and after refreshes
+  (IF CanAuthz THEN {Authz("A", rt, Full, Full, <<>>, "sent", "none") : rt \in {"code", "code_token"}} ELSE {})
+  \cup (IF CanMint THEN {Redeem(Owner(k), "ok", k, "same", "none", <<>>, <<>>) : k \in Codes} ELSE {})
+  \cup {Redeem(Owner(k), "ok", k, "same", "none", <<>>, <<>>) : k \in {x \in Codes : ~st.S.code[x].active}}
+  \cup (IF CanMint THEN {Refresh(st.S.rt[j].client, "ok", j, <<>>, <<>>) : j \in {x \in RTs : RTActive(st, x)}} ELSE {})
+  \cup TickOps
+
 OpsC02 ==   \* client / redirect / lifetime binding; smuggled parameters; grant immutability
   (IF CanAuthz THEN {Authz(c, rt, <<"openid", "offline", "a", "b">>, gr, au, rd, "none") :
         c \in {"A", "P"}, rt \in {"code", "code_idt"}, gr \in {Full, <<"offline", "a">>}, au \in {<<>>, <<AudA>>},
@@ -107,6 +114,12 @@ OpsC04 ==   \* rotation and reuse over several grants of different origin
   \cup (IF CanMint THEN {Refresh(st.S.rt[j].client, "ok", j, <<>>, <<>>) : j \in RTs} ELSE {})
   \cup {Refresh(st.S.rt[j].client, "ok", j, <<>>, <<>>) : j \in {x \in RTs : ~RTActive(st, x)}}
   \cup {Revoke(st.S.rt[j].client, "ok", "rt", j, "rt") : j \in RTs}
+  \cup TickOps
+
+OpsC04b ==  \* the life of ONE grant over time: rotation and reuse at every age of every generation (short lifetimes)
+  (IF CanMint /\ Count(st.S.rt) = 0 THEN {Password("A", "ok", "ok", <<"offline", "a">>, <<>>)} ELSE {})
+  \cup (IF CanMint THEN {Refresh("A", "ok", j, <<>>, <<>>) : j \in RTs} ELSE {})
+  \cup {Refresh("A", "ok", j, <<>>, <<>>) : j \in {x \in RTs : ~RTActive(st, x)}}
   \cup TickOps
 
 OpsC05 ==   \* refresh never widens, never crosses clients; issuance rule
@@ -153,6 +166,13 @@ OpsC08 ==   \* revocation: every token, every hint, owner / foreign / unauthenti
   \cup {Revoke("A", "ok", "unk", 0, h) : h \in {"rt", "none"}}
   \cup TickOps
 
+OpsC08b ==  \* revocation of tokens of every age (expired ones included) by owner and stranger, one grant, short lifetimes
+  (IF CanMint /\ Count(st.S.rt) = 0 THEN {Password("A", "ok", "ok", <<"offline", "a">>, <<>>)} ELSE {})
+  \cup (IF CanMint THEN {Refresh("A", "ok", j, <<>>, <<>>) : j \in {x \in RTs : RTActive(st, x)}} ELSE {})
+  \cup {Revoke(c, "ok", "rt", j, h) : j \in RTs, c \in {"A", "B"}, h \in {"rt", "none"}}
+  \cup {Revoke(c, "ok", "at", i, h) : i \in ATs, c \in {"A", "B"}, h \in {"at", "none"}}
+  \cup TickOps
+
 OpsC09 ==   \* introspection endpoint: callers, hints, required scopes, over states reached by all grant types
   (IF CanAuthz THEN {Authz("A", rt, Full, Full, <<AudA>>, "sent", "none") : rt \in {"code", "code_token"}} ELSE {})
   \cup (IF CanMint THEN {Redeem(Owner(k), "ok", k, "same", "none", <<>>, <<>>) : k \in Codes} ELSE {})
@@ -197,9 +217,9 @@ OpsC17b ==  \* the life of ONE request_uri over a longer history: use, second us
   \cup TickOps
 
 Ops ==
-  CASE Family = "C01" -> OpsC01 [] Family = "C02" -> OpsC02 [] Family = "C03" -> OpsC03
-    [] Family = "C04" -> OpsC04 [] Family = "C05" -> OpsC05 [] Family = "C05b" -> OpsC05b [] Family = "C07" -> OpsC07
-    [] Family = "C08" -> OpsC08 [] Family = "C09" -> OpsC09 [] Family = "C16" -> OpsC16
+  CASE Family = "C01" -> OpsC01 [] Family = "C01b" -> OpsC01b [] Family = "C02" -> OpsC02 [] Family = "C03" -> OpsC03
+    [] Family = "C04" -> OpsC04 [] Family = "C04b" -> OpsC04b [] Family = "C05" -> OpsC05 [] Family = "C05b" -> OpsC05b [] Family = "C07" -> OpsC07
+    [] Family = "C08" -> OpsC08 [] Family = "C08b" -> OpsC08b [] Family = "C09" -> OpsC09 [] Family = "C16" -> OpsC16
     [] Family = "C17" -> OpsC17 [] Family = "C17b" -> OpsC17b
     [] OTHER -> OpsC01 \cup OpsC04 \cup OpsC08 \cup OpsC16 \cup OpsC17
 
